@@ -62,6 +62,10 @@ func (label *Label) UploadDescriptor(ctx context.Context, bundle *Bundle) (err e
 		return err
 	}
 	label.Descriptor.BundleID = bundle.BundleID
+	// a label name is a path element of the label's key: refuse names that could not be listed back
+	if err = model.ValidateLabel(label.Descriptor); err != nil {
+		return err
+	}
 	buffer, err := yaml.Marshal(label.Descriptor)
 	if err != nil {
 		return err
